@@ -197,7 +197,8 @@ impl<'a> Cx<'a> {
         }
     }
 
-    /// `fence(ord);` or `A.store(<reg> ± k, ord);` as a `Simple`; `None` if `s` is something else.
+    /// `fence(ord);`, `A.store(<reg> ± k, ord);` or a result-discarding `A.fetch_sub/add(n, ord);`
+    /// as a `Simple`; `None` if `s` is something else.
     fn simple(&self, s: &Stmt) -> R<Option<(String, Span)>> {
         let Stmt::Expr(e, Some(_)) = s else { return Ok(None) };
         if let Expr::Call(c) = e {
@@ -216,6 +217,14 @@ impl<'a> Cx<'a> {
                     Ok(Some((format!(".{c} {k} {}", self.ord(o)?), e.span())))
                 }
                 None => self.bad("stored value", v.span()),
+            },
+            // `A.fetch_sub(n, ord);` / `A.fetch_add(n, ord);` with the result discarded
+            (m @ ("fetch_sub" | "fetch_add"), [n, o]) => match int(n) {
+                Some(n) => {
+                    let c = if m == "fetch_sub" { "rmwSub" } else { "rmwAdd" };
+                    Ok(Some((format!(".{c} {n} {}", self.ord(o)?), e.span())))
+                }
+                None => self.bad("operand of a read-modify-write", n.span()),
             },
             (m, _) => self.bad(&format!("atomic operation `{m}`"), e.span()),
         }
